@@ -98,7 +98,7 @@ CLAIMS = {
          "the match compiler; soundness of Sem w.r.t. wt; of the typer's inference (check.rs, 3 300 lines) only the fragment of "
          "Model/Infer.lean is modelled (constructors, struct literals, arrays, method / trait-bounded calls, dyn coercions are not), "
          "infer_sound takes the binder table (one LocalId per binder: name resolution, C05) as a hypothesis and does not state what a "
-         "solved StructFieldAccess means; the post-pass check_operator_operand_classes (fix f86e443) is outside the model; the model is "
+         "solved StructFieldAccess means; the post-pass check_operator_operand_classes (fix bf79d08) is outside the model; the model is "
          "tied by sampling generated bodies. The preservation theorems are about the pass MODELS under decidable hypotheses that are validated (not proved) to hold "
          "on the real programs of each run. Trusted: Lean kernel, our reading of type consistency in Wt.errs, harness dumps of the environments, the generator's "
          "own typing. Fixed: a value coerced to dyn Trait twice inside a call argument. Known findings: after lambda lifting closures are "
